@@ -7,7 +7,7 @@ CONSTANTS
   Filter = TRUE
   RandLens = {4, 5, 6, 7}
   RandKinds = {"const", "mov", "inc", "add", "out", "jnz", "jmp"}
-  RandCount = 40000
+  RandCount = 10000
 SPECIFICATION Spec
 INVARIANT AllocatedRunAgrees
 INVARIANT LiveAgree
